@@ -208,6 +208,28 @@ def bucket_of(p):
     return cmd
 
 
+def lines_jnum(rng, n):
+    """CIF numbers by the production Numeric (sign, digits, point, digits, exponent, standard uncertainty) for the model of
+    JsonWriter::write_as_number (Cif/JsonNum.v): leading zeros after a sign, bare leading / trailing points, every
+    combination with exponent and s.u.; values the writer treats as strings (012, 0e5) are left out."""
+    out = []
+    digs = lambda k: ''.join(rng.choice('0123456789') for _ in range(k))
+    while len(out) < n:
+        sg = rng.choice(['', '', '+', '-'])
+        d1 = rng.choice(['', '0', '00', '007', '7', '10', '100', digs(rng.randint(1, 5))])
+        dot = rng.random() < 0.6
+        d2 = rng.choice(['', '0', '5', '50', '05', digs(rng.randint(1, 6))]) if dot else ''
+        if not d1 and not d2:
+            continue
+        ex = rng.choice(['', '', 'e5', 'E-3', 'e+05', 'E0', 'e-00', 'e12'])
+        su = rng.choice(['', '', '(3)', '(12)', '(0)'])
+        v = sg + d1 + ('.' if dot else '') + d2 + ex + su
+        if v[0] == '0' and len(v) > 1 and v[1] != '.':
+            continue
+        out.append('jnum\t' + v.encode().hex())
+    return out
+
+
 def run(chk):
     quick = chk.tier == 'quick'
     rng = random.Random(chk.seed)
@@ -237,6 +259,7 @@ def run(chk):
         lines += lines_texts(rng, 700 if quick else 8000, big=True)
         lines += lines_buf(rng, 400 if quick else 5000)
         lines += F.gen_lex_inputs(rng, 4000 if quick else 60000)
+        lines += lines_jnum(rng, 1500 if quick else 20000)
         lines += lines_json(rng, 500 if quick else 8000)
         res = vlib.correspond(chk, h, d, lines, timeout=900 if quick else 3000)
         for l in res['outputs']:
